@@ -13,6 +13,7 @@ import Mahotas.Proofs.C18Order3b
 import Mahotas.Proofs.C18BSplineW
 import Mahotas.Proofs.C18Interp
 import Mahotas.Proofs.C18Resize
+import Mahotas.Proofs.C18Interp45
 import Mathlib.Data.Rat.Floor
 import Mahotas.Proofs.Modes
 
@@ -844,3 +845,83 @@ theorem C18_mode_codes_agree (m : Mahotas.Mode) :
     (Mahotas.Generated.pyModes.lookup m.name = some m.code ∧ Mahotas.Generated.cppModes.lookup m.name = some m.code) ∧
     Mahotas.Generated.pyModes.length = 6 ∧ Mahotas.Generated.cppModes.length = 6 :=
   ⟨Mahotas.mode_codes_agree m, Mahotas.mode_tables_complete.1, Mahotas.mode_tables_complete.2.1⟩
+
+/-! ## Round 4 -/
+
+/-- **C18 (`interpolation_property`, orders 4 and 5, any rank).** The two-pole analogue of
+`C18_interpolation_property`. Let `c` be what the separable prefilter produces from the samples `f` (`prefilterNd`:
+along axis 0, then 1, …, every line goes through `lineFilterL w [z₁, z₂] ini`: `line *= w`, then for each pole the
+causal pass from `ini z len line` and the anti-causal pass — `onePole`, the recursions `filterLine` runs — the second
+pole on the output of the first), with exact poles (`zᵢ² + λᵢzᵢ + 1 = 0`; order 4: `λ₁+λ₂ = 76`, `λ₁λ₂ = 228`,
+`w = 384`; order 5: `λ₁+λ₂ = 26`, `λ₁λ₂ = 64`, `w = 120`), the exact mirror-symmetric initial values of every
+causal pass (`MirrorInit`), every axis of at least four samples. Then `w` is the code's weight
+`(1−z₁)(1−1/z₁)(1−z₂)(1−1/z₂)` and at **every** output position whose mapped coordinates are an integer position `js`
+inside the array the whole `zoom_shift` model — start knot, the five (six) weights, the **two** mirror-folded knots
+per side, tensor sum — returns exactly `f js`. Any rank, any border mode. Not covered: approximate floating-point
+poles, the truncated initial sum on long lines, axes shorter than 4. -/
+theorem C18_interpolation_property_order4_5 {K : Type} [Field K] [LinearOrder K] [IsStrictOrderedRing K]
+    {fl : K → Int} (h : IsFloor fl) (m : Mode) (cval : K) (order : Nat) (z1 z2 l1 l2 w : K)
+    (hord : (order = 4 ∧ l1 + l2 = 76 ∧ l1 * l2 = 228 ∧ w = 384) ∨
+      (order = 5 ∧ l1 + l2 = 26 ∧ l1 * l2 = 64 ∧ w = 120))
+    (h1 : z1 * z1 + l1 * z1 + 1 = 0) (h2 : z2 * z2 + l2 * z2 + 1 = 0)
+    (hz1 : z1 * z1 - 1 ≠ 0) (hz2 : z2 * z2 - 1 ≠ 0)
+    (ini : K → Nat → (Nat → K) → K) (im : Img K) (hshape : ∀ len ∈ im.shape, 4 ≤ len)
+    (hini : ∀ len ∈ im.shape, ∀ z, z = z1 ∨ z = z2 → ∀ s : Nat → K, MirrorInit z len s (ini z len s))
+    (f : List Int → K)
+    (hdata : ∀ pos, inside im.shape pos = true →
+      im.getD pos 0 = prefilterNd (lineFilterL w [z1, z2] ini) im.shape f pos)
+    (shifts zooms : List (Option K)) (p js : List Int) (hin : inside im.shape js = true)
+    (hc : coordsOf im.shape p shifts zooms = js.map fun (j : Int) => (j : K)) :
+    (1 - z1) * (1 - 1 / z1) * ((1 - z2) * (1 - 1 / z2)) = w ∧
+    pixel fl order m cval im shifts zooms p = f js := by
+  constructor
+  · rw [poleWeight_eq z1 l1 h1, poleWeight_eq z2 l2 h2]
+    rcases hord with ⟨_, hs, hp, rfl⟩ | ⟨_, hs, hp, rfl⟩ <;> linear_combination 2 * hs + hp
+  rw [pixel_at_integer fl order m cval im shifts zooms p js (fun len hl => by have := hshape len hl; omega) hin hc
+    _ hdata]
+  apply nested_prefilter fl order _ im.shape js f _ hin
+  intro len hlen s j h0 hj
+  rcases hord with ⟨rfl, hs, hp, rfl⟩ | ⟨rfl, hs, hp, rfl⟩
+  · rw [axisComb4 h]
+    have := line_inverts2 z1 z2 l1 l2 384 h1 h2 hz1 hz2 (by norm_num) ini len (hshape len hlen) (hini len hlen)
+      s j h0 hj
+    simp only [hs, hp] at this
+    linear_combination (1 / 384 : K) * this
+  · rw [axisComb5 h]
+    have := line_inverts2 z1 z2 l1 l2 120 h1 h2 hz1 hz2 (by norm_num) ini len (hshape len hlen) (hini len hlen)
+      s j h0 hj
+    simp only [hs, hp] at this
+    linear_combination (1 / 120 : K) * this
+
+/-- **C18 (orders 4 and 5 with the code's own initialisation).** The instance of
+`C18_interpolation_property_order4_5` for `ini z len = initFull z (z^(len−1)) len`, the closed form `spline_filter1d`
+uses on short lines: no hypothesis on the initial values is left. -/
+theorem C18_interpolation_property_order4_5_short_lines {K : Type} [Field K] [LinearOrder K]
+    [IsStrictOrderedRing K] {fl : K → Int} (h : IsFloor fl) (m : Mode) (cval : K) (order : Nat)
+    (z1 z2 l1 l2 w : K)
+    (hord : (order = 4 ∧ l1 + l2 = 76 ∧ l1 * l2 = 228 ∧ w = 384) ∨
+      (order = 5 ∧ l1 + l2 = 26 ∧ l1 * l2 = 64 ∧ w = 120))
+    (h1 : z1 * z1 + l1 * z1 + 1 = 0) (h2 : z2 * z2 + l2 * z2 + 1 = 0)
+    (hz1 : z1 * z1 - 1 ≠ 0) (hz2 : z2 * z2 - 1 ≠ 0)
+    (im : Img K) (hshape : ∀ len ∈ im.shape, 4 ≤ len)
+    (hP : ∀ len ∈ im.shape, ∀ z, z = z1 ∨ z = z2 → 1 - z ^ (len - 1) * z ^ (len - 1) ≠ 0)
+    (f : List Int → K)
+    (hdata : ∀ pos, inside im.shape pos = true →
+      im.getD pos 0
+        = prefilterNd (lineFilterL w [z1, z2] (fun z len s => initFull z (z ^ (len - 1)) len s)) im.shape f pos)
+    (shifts zooms : List (Option K)) (p js : List Int) (hin : inside im.shape js = true)
+    (hc : coordsOf im.shape p shifts zooms = js.map fun (j : Int) => (j : K)) :
+    pixel fl order m cval im shifts zooms p = f js := by
+  have hz0 : ∀ z, z = z1 ∨ z = z2 → z ≠ 0 := by
+    rintro z (rfl | rfl) rfl
+    · simp at h1
+    · simp at h2
+  exact (C18_interpolation_property_order4_5 h m cval order z1 z2 l1 l2 w hord h1 h2 hz1 hz2 _ im hshape
+    (fun len hl z hzz s => initFull_mirrorInit z (hz0 z hzz) len (by have := hshape len hl; omega) (hP len hl z hzz) s)
+    f hdata shifts zooms p js hin hc).2
+
+/-- non-vacuity of `lineFilterL`: on a 2-sample line over ℚ, two (non-root) values `1/2`, `1/3`, weight 2, initial
+    value `line[0]`: the filtered line is computed, and a one-sample line is returned as it is -/
+example : lineFilterL (2 : ℚ) [1 / 2, 1 / 3] (fun _ _ s => s 0) 2 (fun k => ((k + 1 : Nat) : ℚ)) 0 = 7 / 4 ∧
+    lineFilterL (2 : ℚ) [1 / 2, 1 / 3] (fun _ _ s => s 0) 1 (fun k => ((k + 1 : Nat) : ℚ)) 0 = 1 := by
+  constructor <;> norm_num [lineFilterL, onePole, anticausalRev, causal]
